@@ -3235,14 +3235,20 @@ def resolve_sequences(items):
             new_items.append(item)
             continue
 
-        values = [int(value, base=0) for value in item.values]
+        try:
+            values = [int(value, base=0) for value in item.values]
+        except ValueError:
+            raise AssemblerError('{} values must be integers'.format(item.name), item.line)
 
         data = bytearray()
         for value in values:
             fmt = endianness + formats[item.name]
             if value < 0:
                 fmt = fmt.lower()
-            value = struct.pack(fmt, value)
+            try:
+                value = struct.pack(fmt, value)
+            except struct.error as e:
+                raise AssemblerError('value {} does not fit: {}'.format(value, e), item.line)
             data.extend(value)
         blob = Blob(item.line, bytes(data))
         new_items.append(blob)
@@ -3286,7 +3292,10 @@ def resolve_packs(items):
             new_items.append(item)
             continue
 
-        data = struct.pack(item.fmt, item.imm)
+        try:
+            data = struct.pack(item.fmt, item.imm)
+        except struct.error as e:
+            raise AssemblerError('value {} does not fit: {}'.format(item.imm, e), item.line)
         blob = Blob(item.line, data)
         new_items.append(blob)
 
